@@ -896,7 +896,20 @@ func (sc *RevScenario) setup(obs *RevObs, altSeed uint32, nt *Net, ka *keyAlloca
 	nt.PanicValue = pv
 	for _, w := range sc.Worlds {
 		if w.C0() == nil {
-			if err := w.materialise(ka); err != nil {
+			// keys must be distinct within one world (a shared key would make a
+			// forged answer authentic); across worlds reuse is harmless, and a
+			// 32-caller scenario would exhaust the pool otherwise
+			wka := ka
+			switch {
+			case w.CloneOf != nil && w.CloneOf.ka != nil:
+				// a later validation of the same chain keeps drawing from the
+				// chain's allocator (its extra certificates must not reuse chain keys)
+				wka = w.CloneOf.ka
+			case len(sc.Worlds) > 1:
+				wka = newKeyAllocator()
+			}
+			w.ka = wka
+			if err := w.materialise(wka); err != nil {
 				obs.HarnessErr = "materialise: " + err.Error()
 				return nil
 			}
